@@ -1856,3 +1856,81 @@ func valueCases(v ssa.Value, at *ssa.BasicBlock) []valCase {
 	expand(v, dominatingConds(at), 0)
 	return out
 }
+
+// throughStructCopy: a field read from a local struct variable that was assigned exactly once, as a whole
+// (`options := service.options; ... options.TLSEnabled`), is the same field of the struct copied in. Returns v unchanged
+// when that is not the situation.
+func throughStructCopy(v ssa.Value) ssa.Value {
+	for depth := 0; depth < 4; depth++ {
+		chain, base := fieldPath(v)
+		a, isLocal := base.(*ssa.Alloc)
+		if !isLocal || len(chain) == 0 || a.Referrers() == nil {
+			return v
+		}
+		var whole []*ssa.Store
+		for _, r := range *a.Referrers() {
+			if st, ok := r.(*ssa.Store); ok && st.Addr == ssa.Value(a) {
+				whole = append(whole, st)
+			}
+		}
+		if len(whole) != 1 {
+			return v
+		}
+		// rebuild the access path on the copied-in value
+		cur := whole[0].Val
+		ok := true
+		for _, f := range chain {
+			st, _ := cur.Type().Underlying().(*types.Struct)
+			if st == nil {
+				ok = false
+				break
+			}
+			idx := -1
+			for i := 0; i < st.NumFields(); i++ {
+				if st.Field(i) == f {
+					idx = i
+				}
+			}
+			if idx < 0 {
+				ok = false
+				break
+			}
+			fld := &ssa.Field{X: cur, Field: idx}
+			cur = fld
+		}
+		if !ok {
+			return v
+		}
+		v = cur
+	}
+	return v
+}
+
+// unobservedNewField: the field does not exist in the reference tree and is read only by functions that do not exist
+// there either (a new counter / timestamp with its new accessor). Such a field cannot influence anything the existing
+// code does, so rules that classify every field of a type (persisted or not, ...) leave it alone. Races on it are still
+// C18's business.
+func (c *Ctx) unobservedNewField(typ string, f *types.Var) bool {
+	if f.Pkg() == nil || baselineFields[f.Pkg().Path()+"."+typ+"."+f.Name()] {
+		return false
+	}
+	for _, a := range c.accessesOf(f) {
+		if a.write {
+			// an address that escapes is reported as a write; treat escapes conservatively as observation by old code
+			if _, isStore := a.instr.(*ssa.Store); !isStore {
+				if _, isFA := a.instr.(*ssa.FieldAddr); !isFA {
+					continue
+				}
+			}
+			continue
+		}
+		o := outer(a.fn)
+		if o == nil || o.Object() == nil {
+			return false
+		}
+		if fo, ok := o.Object().(*types.Func); ok && baselineFuncs[fo.FullName()] {
+			return false
+		}
+	}
+	return true
+}
